@@ -400,7 +400,7 @@ class AtomicSaver:
         self.dest_path = os.path.abspath(self.dest_path)
         self.dest_dir = os.path.dirname(self.dest_path)
         if not self.part_filename:
-            self.part_path = dest_path + '.part'
+            self.part_path = self.dest_path + '.part'
         else:
             self.part_path = os.path.join(self.dest_dir, self.part_filename)
         self.mode = 'w+' if self.text_mode else 'w+b'
